@@ -16,12 +16,14 @@ import (
 
 var titlePool = []string{"crash on start", "Ünïcödé title ✓", "a", "title with  two spaces", "日本語のタイトル",
 	"very long title " + string(make([]byte, 0)) + "xxxxxxxxxxxxxxxxxxxxxxxxxxxxxxxxxxxxxxxxxxxxxxxxxxxxxxxxxxxxxxxxxxxxxxxxxxxxxxxxxxxx",
-	"quote \" and ' and : colon", "tab-less but (parenthesised)", "emoji 🐛 bug"}
+	"quote \" and ' and : colon", "tab-less but (parenthesised)", "emoji 🐛 bug",
+	"a < b && c > d"}
 var messagePool = []string{"", "simple message", "multi\nline\nmessage", "  leading and trailing  ", "unicode: é€😀 日本",
-	"tab\tseparated", "a very long message: " + longText(3000), "line with trailing newline\n", "```code\nblock```"}
+	"tab\tseparated", "a very long message: " + longText(3000), "line with trailing newline\n", "```code\nblock```",
+	"<p>html &amp; co</p> \u2028 line separator"}
 var labelPool = []string{"bug", "feature", "ui", "Bug", "bug ", "prio:high", "zeta", "alpha", "étiquette", "good first issue", "a", "b", "c"}
 var mdKeyPool = []string{"github-id", "origin", "k", "gitlab-url", "key with space", "clé"}
-var mdValPool = []string{"", "v", "https://example.com/x?y=1", "multi\nline", "42", "ünï"}
+var mdValPool = []string{"", "v", "https://example.com/x?y=1", "multi\nline", "42", "ünï", "https://example.com/x?y=1&z=<2>"}
 
 func longText(n int) string {
 	b := make([]byte, n)
